@@ -22,7 +22,7 @@ import vlib
 
 META = {
     "category": "proof",
-    "text": "Coq theorems (Refs/Props_C08.v, 9 theorems, closed under the global context) over an executable state-machine model of lsmtk's file life cycle (reference_counter.rs; explicit_ref/unref, release_sst, install_version, compaction_finish pin/link/apply/install/unpin, _ingest, from_manifest and cleanup_orphans of tree/mod.rs; open/recover/_memtable_thread of kvs/mod.rs; verify/process_one/possibly_complete_processing/verify_one's lists/added_after of verifier.rs; mani at the level of edits and fragments). For EVERY interleaving of the store's threads one system call at a time, readers taking and releasing snapshots, compactions with any names (re-created setsums included), manifest roll-overs, the process dying between any two steps and reopening, and the verifier stepping, dying and restarting anywhere: every sst named by the committed manifest, the current version or a held snapshot is in sst/ (C08_needed_not_removed); reference counts are exact and a counted sst is in place; a log is in the trash only if it is empty or its sst was committed; the orphan scan never names a listed sst whatever fragments the verifier has removed, and open() finds every listed sst; the verifier unlinks only trash entries that the fragment named in its own manifest recorded, and no verifier activity touches sst/, the root's logs, the live manifest or the highest fragment. By incarnation the verifier property is refuted (known class K-verifier-by-name) and proved outside the class. The model is tied to the code by lock-step replay of real single-stepped histories on the extracted model, comparing directory contents, reference counts, manifest state, fragments and the verifier's manifest after every step; verifier passes are killed before each unlink (strace), a reader's release is placed inside a compaction (hook), store processes are killed inside their renames, physical entries are compared across reopens.",
+    "text": "Coq theorems (Refs/Props_C08.v, 9 theorems, closed under the global context) over an executable state-machine model of lsmtk's file life cycle (reference_counter.rs; explicit_ref/unref, release_sst, install_version, compaction_finish pin/link/apply/install/unpin, _ingest, from_manifest and cleanup_orphans of tree/mod.rs; open/recover/_memtable_thread of kvs/mod.rs; verify/process_one/possibly_complete_processing/verify_one's lists/added_after of verifier.rs; mani at the level of edits and fragments). For EVERY interleaving of the store's threads (opening thread, memtable thread, any number of compaction threads, any number of readers) one system call at a time, readers taking and releasing snapshots, compactions with any names (re-created setsums included), manifest roll-overs, the process dying between any two steps and reopening, and the verifier stepping, dying and restarting anywhere: every sst named by the committed manifest, the current version or a held snapshot is in sst/ (C08_needed_not_removed); reference counts are exact and a counted sst is in place; a log is in the trash only if it is empty or its sst was committed; the orphan scan never names a listed sst whatever fragments the verifier has removed, and open() finds every listed sst; the verifier unlinks only trash entries that the fragment named in its own manifest recorded, and no verifier activity touches sst/, the root's logs, the live manifest or the highest fragment. By incarnation the verifier property is refuted (known class K-verifier-by-name) and proved outside the class. The model is tied to the code by lock-step replay of real single-stepped histories on the extracted model, comparing directory contents, reference counts, manifest state, fragments and the verifier's manifest after every step; verifier passes are killed before each unlink (strace), a reader's release is placed inside a compaction (hook), store processes are killed inside their renames, physical entries are compared across reopens.",
     "note": "Trusted: Coq kernel; extraction (ExtrOcamlBasic) + ocaml/refs driver; harness `c08` + lsmtk hooks (cfg blue_verif: single-step, dump, verif_refs, verif_snapshot, verif_set_point_hook); strace kill injection; checks/c08_run.py. Atomic in the model: Manifest::apply (C13), the critical section under the compaction mutex, inc_and/dec_and, the read-only part of process_one. Names and roll-overs are oracle inputs; sizes/contents are C01/C10's subject. Fixed in /repo for this property: a899047 (F5), 88180bd (pin compaction outputs), and by build-C04 bc4e529 (F17), 48c731b (F18). Known class K-verifier-by-name: trash entries are addressed by name, so an intent recorded before the store re-creates and re-removes the same setsum unlinks the later incarnation.",
 }
 
@@ -71,9 +71,11 @@ def gen_history(rng, n_ops, optname):
             ops.append(["flush"])
         elif r < 70:
             ops.append(["compact", rng.choice([2, 8, 20, 40, 80])])
-        elif r < 74:
+        elif r < 73:
             ops.append(["hookcompact", rng.below(3)])
-        elif r < 79:
+        elif r < 76:
+            ops.append(["compact2", rng.below(3)])
+        elif r < 80:
             ops.append(["reopen"])
         elif r < 86:
             ops.append(["take", rng.below(3), rng.choice(["snap", "snap", "cur"])])
@@ -109,8 +111,10 @@ def gen_history_live(rng, n_ops):
                 ops.append(["w", k.hex(), None] if rng.chance(1, 4) else ["w", k.hex(), rng.choice([b"", b"y" * 40]).hex()])
             elif r < 62:
                 ops.append(["flush"])
-            elif r < 92:
+            elif r < 86:
                 ops.append(["compact", rng.choice([2, 8, 20, 40])])
+            elif r < 92:
+                ops.append(["compact2", rng.below(2)])
             elif r < 96:
                 ops.append(["take", rng.below(2), "snap"])
             else:
@@ -158,6 +162,10 @@ def run_history(c08_exe, mx_exe, optname, ops, tag, universe):
                     run.compact(hookdrop=r)
                 else:
                     run.compact()
+            elif kind == "compact2":
+                for _ in range(6):
+                    if not run.compact2(hookdrop=op[1]):
+                        break
             elif kind == "reopen":
                 run.reopen()
                 run.reads()
@@ -228,7 +236,7 @@ def run(chk):
     ok_proof, info = vlib.proof_stage(chk, PROPS, MODULE, const_areas=("Refs",), pins_rel="pins/C08.v")
     c08_exe, mx = build(chk)
     rng = vlib.Rng(chk.seed * 1000003 + 8)
-    n_hist = 36 if chk.tier == "quick" else 300
+    n_hist = 32 if chk.tier == "quick" else 300
     cases = load_corpus()
     ncorpus = len(cases)
     for i in range(n_hist):
@@ -254,10 +262,22 @@ def run(chk):
         for e in r.known_events:
             if e[0] in known:
                 chk.known(e[0], known[e[0]])
-        # a known event explains what follows it in that history (the verifier is wedged and the model
-        # no longer follows it) — except an unlink of a setsum that is NOT one of the class's names
-        fresh = [p for p in r.problems if first_known is None or p["at_event"] < first_known
-                 or (p["kind"] == "incarnation" and p.get("name") not in k_names)]
+        # what a known event of K-verifier-by-name excuses in the rest of that history: the verifier
+        # failing / waiting on the named setsum (`verifier`), and the model no longer following the
+        # verifier's own directories (`corr` on trash, trash logs, fragments, the verifier's manifest).
+        # Store data is never touched in this class: `needed`, `read`, `error`, `incarnation` of another
+        # name and `corr` on sst/, the manifest, the reference counts or the root's logs are never excused.
+        def excused(p):
+            if first_known is None or p["at_event"] < first_known:
+                return False
+            if p["kind"] == "verifier":
+                return True
+            if p["kind"] == "incarnation":
+                return p.get("name") in k_names
+            if p["kind"] == "corr":
+                return p.get("what", "").split(" ")[0] in ("trash", "tlogs", "frags", "vstrs", "vm")
+            return False
+        fresh = [p for p in r.problems if not excused(p)]
         unlisted = [e for e in r.known_events if e[0] not in known]
         replay = {"name": name, "options": optname, "ops": ops, "universe": universe, "problems": fresh[:8],
                   "known_events": [list(e) for e in r.known_events[:5]], "events_tail": [list(e) for e in r.events]}
@@ -270,7 +290,7 @@ def run(chk):
 
     chk.coverage.update({
         "evaluations": len(cases), "distinct_nontrivial": len(shapes),
-        "rule": "random single-stepped histories under 5 option sets (one of them cuts compaction outputs where earlier files were cut, so setsums are re-created): puts/deletes, flushes, 1..40 compaction steps, reopens, snapshots and scan cursors held across retirements and released later, a reader's release placed between a compaction's hard_link and its manifest edit (hook), phases separated by pairs of reopens with the manifest rolling over on open only (re-created setsums stay in the live MANIFEST while the verifier reads older fragments), complete verifier passes, verifier passes in their own process killed before their j-th unlink (strace), store processes killed at their j-th rename; corpus first; non-trivial = at least 2 flushes, 1 merging/GC compaction and 1 snapshot or verifier pass; distinct = distinct op lists",
+        "rule": "random single-stepped histories under 5 option sets (one of them cuts compaction outputs where earlier files were cut, so setsums are re-created): puts/deletes, flushes, 1..40 compaction steps, reopens, snapshots and scan cursors held across retirements and released later, a reader's release placed between a compaction's hard_link and its manifest edit (hook), two or three compactions selected together (as by several compaction threads) with the whole perform phase of one placed between another's linking of its outputs and its manifest edit, phases separated by pairs of reopens with the manifest rolling over on open only (re-created setsums stay in the live MANIFEST while the verifier reads older fragments), complete verifier passes, verifier passes in their own process killed before their j-th unlink (strace), store processes killed at their j-th rename; corpus first; non-trivial = at least 2 flushes, 1 merging/GC compaction and 1 snapshot or verifier pass; distinct = distinct op lists",
         "samples": [cases[ncorpus][2][:14] if len(cases) > ncorpus else [], cases[-1][2][:14]],
         "input_distribution": totals, "corpus_cases": ncorpus, "option_sets": sorted(OPTION_SETS),
         "traces_validated_against_impl": len(cases) - len(mach_bad),
